@@ -23,6 +23,7 @@ import (
 	"github.com/notaryproject/notation-go"
 	"github.com/notaryproject/notation-go/registry"
 	"github.com/notaryproject/notation-go/signer"
+	pf "github.com/notaryproject/notation-plugin-framework-go/plugin"
 	"github.com/opencontainers/go-digest"
 	ocispec "github.com/opencontainers/image-spec/specs-go/v1"
 	"oras.land/oras-go/v2"
@@ -31,6 +32,7 @@ import (
 	"pgregory.net/rapid"
 
 	"verifharness/internal/envb"
+	"verifharness/internal/mocks"
 	"verifharness/internal/pki"
 	"verifharness/internal/rp"
 	"verifharness/internal/sandbox"
@@ -54,6 +56,9 @@ type Case struct {
 	// does): "disjoint" keys, or "clashing" with the thumbprint / signing-time annotations, which
 	// the statement fixes
 	SignerAnn string `json:"signerAnnotations,omitempty"`
+	// PluginSigner: the signer is the library's plugin-backed signer around an honest in-process
+	// plugin ("raw" or "envelope" generator), created with a signer-level plugin configuration
+	PluginSigner string `json:"pluginSigner,omitempty"`
 }
 
 var (
@@ -218,9 +223,21 @@ func readIndexEntry(dir string, dg digest.Digest) (*indexEntry, error) {
 func run(c *Case) (string, string) {
 	ctx := context.Background()
 	ch := theChain()
+	var inner notation.Signer
 	inner, err := signer.NewGenericSigner(ch.Leaf().Key, ch.X509())
 	if err != nil {
 		return "harness", err.Error()
+	}
+	if c.PluginSigner != "" {
+		caps := []pf.Capability{pf.CapabilitySignatureGenerator}
+		if c.PluginSigner == "envelope" {
+			caps = []pf.Capability{pf.CapabilityEnvelopeGenerator}
+		}
+		ps, err := signer.NewPluginSigner(&mocks.HonestSignPlugin{Caps: caps, Chain: ch, KeySpec: "EC-256"}, "key-1", map[string]string{"signer-level": "configuration", "k": "signer"})
+		if err != nil {
+			return "harness", err.Error()
+		}
+		inner = ps
 	}
 	repo := &spyRepo{}
 	var dir string
@@ -273,7 +290,9 @@ func run(c *Case) (string, string) {
 		if c.Repo == "memory" {
 			repo.inner = registry.NewRepository(store)
 		} else {
-			open = func() (registry.Repository, error) { return registry.NewOCIRepository(dir, registry.RepositoryOptions{}) }
+			open = func() (registry.Repository, error) {
+				return registry.NewOCIRepository(dir, registry.RepositoryOptions{})
+			}
 			r, err := open()
 			if err != nil {
 				return "harness", "open layout: " + err.Error()
@@ -521,6 +540,7 @@ func TestC11_Sequences(t *testing.T) {
 		}
 		c.Ref = rp.Pick(rt, "ref", "tag", "tag", "digest", "full-tag", "full-digest", "digest-elsewhere")
 		c.SignerAnn = rp.Pick(rt, "signerAnnotations", "", "", "disjoint", "clashing", "clashing")
+		c.PluginSigner = rp.Pick(rt, "pluginSigner", "", "", "raw", "envelope")
 		if c.Ref == "digest-elsewhere" && c.Repo != "scripted" {
 			c.Ref = "tag"
 		}
@@ -542,6 +562,9 @@ func TestC11_Sequences(t *testing.T) {
 		}
 		if c.SignerAnn != "" {
 			cl = append(cl, "signer-annotations="+c.SignerAnn)
+		}
+		if c.PluginSigner != "" {
+			cl = append(cl, "plugin-backed-signer="+c.PluginSigner)
 		}
 		rec.Case(cl, len(c.ArtAnn) > 0 || c.Calls >= 2, stats.Fingerprint(fmt.Sprintf("%+v", *c)), func() any { return c })
 		key, msg := run(c)
